@@ -189,7 +189,7 @@ fn main() {
             let mut rng = gen::rng(args.seed, args.shard, 5);
             let n = args.budget(200_000, 3_000_000) / args.nshards.max(1);
             for i in 0..n {
-                let p = if i % 3 == 2 { gen::mating_material_position(&mut rng) } else { gen::check_position(&mut rng) };
+                let p = if i % 3 == 2 { gen::mating_material_position(&mut rng) } else if i % 6 == 1 { rep.count("castle_zone_positions"); gen::castle_zone_position(&mut rng) } else { gen::check_position(&mut rng) };
                 c05::check(&p, &mut rep, &mut rng);
                 rep.count("synthesised_check_positions");
                 // steer into mates: play a mating move if there is one
